@@ -48,6 +48,7 @@ OKRULE = "table(sub) cA > cB; endtable;\n"
 DEEP_LIST = H + "table(glyph) cB = glyphid(7); cA = glyphid(3) {" + "; ".join("q%d = %d" % (i, i % 100) for i in range(70000)) + "}; endtable;\ntable(sub) cA > cB; endtable;\n"
 
 CORPUS = [
+    ("gdlpp-intmin-div-minus-one", H + "#if (-2147483647 - 1) / -1\n#endif\n#if (-2147483647 - 1) % -1\n#endif\n" + G + OKRULE, None, {}),
     # one attribute list of 70,000 assignments: the list rule of the grammar is right-recursive (known finding)
     ("deep-attr-list", DEEP_LIST, None, {"known_stack_overflow": "C11:stack-overflow-in-the-right-recursive-list-rules-of-the-parser", "recursion": "attrItemList"}),
     ("empty-class-subst", H + "table(glyph) cE = (); cB = glyphid(7..9); endtable;\ntable(sub) cE > cB; endtable;\n", None, {}),
